@@ -211,6 +211,42 @@ func width(info *types.Info, e ast.Expr) int64 {
 	return types.SizesFor("gc", "amd64").Sizeof(b) * 8
 }
 
+// valueBits bounds the number of significant bits of the non-negative value of
+// e from its construction: a conversion of an unsigned operand keeps the
+// operand's bits, a mask with a non-negative constant keeps the mask's. It
+// falls back to the width of the type (also for anything that may be negative).
+func valueBits(info *types.Info, e ast.Expr) int64 {
+	e = ast.Unparen(e)
+	w := width(info, e)
+	if w == 0 {
+		return 0
+	}
+	unsigned := func(x ast.Expr) bool {
+		b, ok := info.TypeOf(x).Underlying().(*types.Basic)
+		return ok && b.Info()&types.IsUnsigned != 0
+	}
+	switch x := e.(type) {
+	case *ast.CallExpr:
+		if tv, isT := info.Types[x.Fun]; isT && tv.IsType() && len(x.Args) == 1 && width(info, x.Args[0]) != 0 && unsigned(x.Args[0]) {
+			// fits without touching the sign bit of a signed target
+			if in := valueBits(info, x.Args[0]); in > 0 && (in < w || in == w && unsigned(e)) {
+				return in
+			}
+		}
+	case *ast.BinaryExpr:
+		if x.Op == token.AND {
+			for _, pr := range [][2]ast.Expr{{x.X, x.Y}, {x.Y, x.X}} {
+				if m, ok := core.IntConst(info, pr[1]); ok && m >= 0 && width(info, pr[0]) != 0 {
+					if n := int64(bits.Len64(uint64(m))); n < w {
+						return n
+					}
+				}
+			}
+		}
+	}
+	return w
+}
+
 func shiftOf(info *types.Info, e ast.Expr) (x ast.Expr, op token.Token, k int64, ok bool) {
 	be, isBin := strip(info, e).(*ast.BinaryExpr)
 	if !isBin || be.Op != token.SHL && be.Op != token.SHR {
@@ -641,7 +677,14 @@ func shifts(c *core.Ctx, fn *core.Fn, label string, always bool) {
 			return true
 		}
 		n++
-		if k >= w {
+		// to the right, what counts is how many bits the operand can have, not how wide
+		// its type is: uint(b) >> 8 of a byte b is 0 just as b >> 8 is
+		if vb := valueBits(info, be.X); be.Op == token.SHR && vb < w && k >= vb {
+			bad = append(bad, fmt.Sprintf("%s shifts an operand of at most %d significant bits right by %d and is always 0", c.Src(be), vb, k))
+			if pos == token.NoPos {
+				pos = be.Pos()
+			}
+		} else if k >= w {
 			bad = append(bad, fmt.Sprintf("%s shifts a %d-bit operand by %d and is always 0", c.Src(be), w, k))
 			if pos == token.NoPos {
 				pos = be.Pos()
